@@ -4,7 +4,6 @@ package main
 
 import (
 	"context"
-	"encoding/base64"
 	"encoding/json"
 	"fmt"
 	"go/types"
@@ -185,7 +184,7 @@ func scalarTermsOfValue(v Value, into map[string]*Term) {
 func interestingHead(op string) bool {
 	op = strings.Trim(op, "|")
 	switch {
-	case op == "cs_get", op == "cs_has", op == "form_value", op == "validate", op == "hash_ok", op == "totp_ok":
+	case op == "cs_get", op == "cs_has", op == "form_value", op == "validate", op == "hash_ok", op == "totp_ok", op == "time_parse", op == "time_parse_ok":
 		return true
 	case strings.HasPrefix(op, "b64dec!"), strings.HasPrefix(op, "b64ok!"):
 		return true
@@ -247,19 +246,33 @@ func (m modelVals) boolean(t *Term) bool {
 }
 
 // queryModel re-runs the refuted query and asks for the values of ts.
-func queryModel(o *Obligation, ts []*Term) (modelVals, error) {
+func queryModel(o *Obligation, ts []*Term, extra string) (modelVals, error) {
 	var b strings.Builder
-	b.WriteString(o.smt(false))
-	b.WriteString("(get-value (")
-	for _, t := range ts {
-		b.WriteString(t.String())
-		b.WriteByte(' ')
+	oq := *o
+	oq.ExtraDecl = ts
+	base := oq.smt(false)
+	if i := strings.LastIndex(base, "(check-sat)"); i >= 0 && extra != "" {
+		base = base[:i] + extra + base[i:]
 	}
-	b.WriteString("))\n")
+	b.WriteString(base)
+	// one get-value per term: a term the solver cannot evaluate costs only itself
+	for _, t := range ts {
+		b.WriteString("(get-value (")
+		b.WriteString(t.String())
+		b.WriteString("))\n")
+	}
 	dir, _ := os.MkdirTemp("", "gvc-model-")
 	defer os.RemoveAll(dir)
 	file := filepath.Join(dir, "m.smt2")
 	os.WriteFile(file, []byte(b.String()), 0o644)
+	if keep := os.Getenv("GVC_KEEP_MODEL"); keep != "" {
+		os.MkdirAll(keep, 0o755)
+		suffix := ""
+		if extra != "" {
+			suffix = "-time"
+		}
+		os.WriteFile(filepath.Join(keep, sanitize(o.Name)+suffix+".smt2"), []byte(b.String()), 0o644)
+	}
 	argvs := [][]string{{"z3-new", "-T:20", file}, {"cvc5", "--produce-models", "--strings-exp", "--tlimit=20000", file}}
 	if strings.HasPrefix(o.Solver, "cvc5") {
 		argvs[0], argvs[1] = argvs[1], argvs[0]
@@ -278,12 +291,14 @@ func queryModel(o *Obligation, ts []*Term) (modelVals, error) {
 			continue
 		}
 		mv := modelVals{}
-		pairs := es[0].list
-		for i, p := range pairs {
-			if len(p.list) != 2 || i >= len(ts) {
-				continue
+		for i, e := range es {
+			if i >= len(ts) {
+				break
 			}
-			mv[ts[i].String()] = modelValue(p.list[1])
+			if len(e.list) != 1 || len(e.list[0].list) != 2 {
+				continue // (error ...) for this term
+			}
+			mv[ts[i].String()] = modelValue(e.list[0].list[1])
 		}
 		return mv, nil
 	}
@@ -371,37 +386,44 @@ func (p *Program) buildReplay(o *Obligation) (*replayPlan, modelVals) {
 		}
 		ts = append(ts, terms[k])
 	}
-	mv, err := queryModel(o, ts)
-	if err != nil {
-		return &replayPlan{Unsupported: err.Error()}, nil
+	// crypto terms of the path (their model values drive the forward computation)
+	crypto := map[string]*Term{}
+	for _, h := range o.Hyps {
+		collectCrypto(h, crypto)
 	}
-	// crypto computed forward: an input that the code base64-decodes gets the
-	// real encoding of the bytes the model chose for the decoded value
-	for _, t := range ts {
-		op := strings.Trim(t.Op, "|")
-		if t.Sym && strings.HasPrefix(op, "b64dec!") && len(t.Args) == 1 {
-			in := t.Args[0]
-			for in.Op == "ite" && !in.Sym && len(in.Args) == 3 { // ite(state==0, "", cs_get(..))
-				in = in.Args[2]
-			}
-			if !in.Sym || !interestingHead(in.Op) {
-				continue
-			}
-			okT := App("b64ok!"+op[len("b64dec!"):], SBool, t.Args[0])
-			if v, has := mv[okT.String()]; has {
-				if b, _ := v.(bool); !b {
-					mv[in.String()] = "%%%not-base64%%%"
-					continue
-				}
-			}
-			raw := mv.str(t)
-			if strings.HasSuffix(op, "url") {
-				mv[in.String()] = base64.URLEncoding.EncodeToString([]byte(raw))
-			} else {
-				mv[in.String()] = base64.StdEncoding.EncodeToString([]byte(raw))
+	collectCrypto(o.Goal, crypto)
+	for _, t := range copyTerms(terms) {
+		collectCrypto(t, crypto)
+	}
+	for k, t := range crypto {
+		if _, has := terms[k]; !has {
+			ts = append(ts, t)
+		}
+	}
+	// clock readings in order
+	var nows []*Term
+	for _, e := range st.Trace {
+		if e.Kind == "Now" && len(e.Res) == 1 {
+			if n, ok := e.Res[0].(*Term); ok {
+				nows = append(nows, n)
 			}
 		}
 	}
+	timeRealised := false
+	var mv modelVals
+	var err error
+	if ta := timeAsserts(o, nows); ta != "" {
+		if mv, err = queryModel(o, ts, ta); err == nil {
+			timeRealised = true
+		}
+	}
+	if mv == nil {
+		mv, err = queryModel(o, ts, "")
+	}
+	if err != nil {
+		return &replayPlan{Unsupported: err.Error()}, nil
+	}
+	concLog := reconcileCrypto(o, mv, ts, crypto)
 	plan := &replayPlan{Script: map[string]interface{}{}}
 	if fn.Pkg == nil && fn.Parent() != nil {
 		plan.Pkg = fn.Parent().Package().Pkg.Name()
@@ -530,6 +552,34 @@ func (p *Program) buildReplay(o *Obligation) (*replayPlan, modelVals) {
 		users[id] = rec
 	}
 	plan.Script["users"] = users
+	plan.Script["time_relative"] = timeRealised
+	plan.Script["realised"] = concLog
+	// session/cookie values that the code parses as times: relative instants
+	stimes := map[string]interface{}{}
+	for _, t := range ts {
+		if !t.Sym || strings.Trim(t.Op, "|") != "time_parse" || len(t.Args) != 2 {
+			continue
+		}
+		in := stripIte(t.Args[1])
+		if !in.Sym || strings.Trim(in.Op, "|") != "cs_get" || len(in.Args) != 2 {
+			continue
+		}
+		k, ok := in.Args[1].StrVal()
+		if !ok {
+			continue
+		}
+		okT := App("time_parse_ok", SBool, t.Args[0], t.Args[1])
+		if b, has := mv[okT.String()].(bool); has && !b {
+			continue
+		}
+		lay, _ := t.Args[0].StrVal()
+		store := "session"
+		if strings.Contains(in.Args[0].String(), "ctxval!cookie") {
+			store = "cookie"
+		}
+		stimes[store+":"+k] = map[string]interface{}{"rel": mv.int(t), "layout": lay}
+	}
+	plan.Script["state_times"] = stimes
 	// calls in order
 	valuesOf := func(ref *Term) map[string]interface{} {
 		m := map[string]interface{}{}
@@ -793,7 +843,7 @@ func (p *Program) harnessSource(plan *replayPlan) string {
 	src = strings.ReplaceAll(src, "%VALUEMETHODS%", p.valueMethodsSource())
 	src = strings.ReplaceAll(src, "%CONFIG%", plan.ConfigCode)
 	src = strings.ReplaceAll(src, "%CALL%", plan.CallCode)
-	js, _ := json.Marshal(plan.Script)
+	js, _ := json.Marshal(latin1Deep(plan.Script))
 	src = strings.ReplaceAll(src, "%SCRIPT%", "`"+strings.ReplaceAll(string(js), "`", "'")+"`")
 	src += `
 func vrResults(rs ...interface{}) []interface{} {
